@@ -6,6 +6,7 @@ CONSTANTS
   SmallShrCount = 12
   Range <- RangeTiny
   ClassSet <- ClassesCore
+  AliasSet <- ClassesAlias
   CoreSet <- CoreTiny
 INVARIANT Laws
 CHECK_DEADLOCK FALSE
